@@ -57,6 +57,13 @@ class S:
     def __rtruediv__(self, o): return S.lift(o)._bin(self, lambda a, b: a / b)
     def __neg__(self): return S(-self.t, self.deps)
 
+    def _inplace(self, o):
+        # an in-place operator on a raw/halo column mutates data that other loaders read: not a pure function of its inputs
+        MUTATIONS.append(sorted(self.deps))
+        raise TypeError('loader mutates one of its input columns in place')
+
+    __imul__ = __iadd__ = __isub__ = __itruediv__ = _inplace
+
     def __pow__(self, k):
         if isinstance(k, (int, np.integer)) and 0 <= int(k) <= 4:
             r = z3.RealVal(1)
@@ -87,6 +94,7 @@ class S:
 
 
 SQRT_FACTS = []
+MUTATIONS = []
 
 
 class Raw:
@@ -206,7 +214,11 @@ def e2_proofs(run, repo):
             try:
                 got = obj.halo_field_loaders[pat](m, raw, halos)
             except TypeError as ex:
-                run.undecided.append(f'loader of {name}: {ex}')
+                if MUTATIONS:
+                    run.lemma(f'loader.pure{tag}', [], z3.BoolVal(False))        # in-place update of an input column
+                    del MUTATIONS[:]
+                else:
+                    run.undecided.append(f'loader of {name}: {ex}')
                 continue
             except Exception as ex:      # noqa
                 run.undecided.append(f'loader of {name} failed symbolically: {ex!r}')
@@ -331,10 +343,16 @@ def lemma_replayer(obl, model):
     cands += [(37.5, 2917.0), (1.0, 0.5)]
     for b, v in cands:
         for cleaned in (False, True):
-            why = judge_catalog(7, b, v, cleaned)
+            key = (round(b, 9), round(v, 9), cleaned)
+            if key not in _REPLAY_MEMO:
+                _REPLAY_MEMO[key] = judge_catalog(7, b, v, cleaned)
+            why = _REPLAY_MEMO[key]
             if why:
                 return True, why
     return False, 'no case reproduced'
+
+
+_REPLAY_MEMO = {}
 
 
 def check(run):
